@@ -156,12 +156,33 @@ func buildWorld(rt *rapid.T, label string) *world {
 	if withDB {
 		m.Commit(gen.Pick(rt, []int{0, 1, 2, 3, 64}, label+"lvl"))
 	}
+	// the trie a proof is taken from was reached by a history, not only by inserts
+	m.RT = rt
+	if m.Churn(rt, pool, &counter, label+"churn") > 0 {
+		ev.Class("world-reached-by-history", 1)
+	}
 	if failure != "" {
 		rt.Fatalf("HARNESS: building the trie failed: %s", failure)
 	}
 	w := &world{entries: wmkit.Entries(m.Model), trie: m.T}
 	w.root, w.total = refwmpt.Root(w.entries)
 	return w
+}
+
+// drawBlock: uniform over 1..total, or (half of the time) the first or last block of a drawn key's interval.
+func (w *world) drawBlock(rt *rapid.T, label string) uint64 {
+	if gen.Chance(rt, 50, label+"edge") {
+		i := gen.Uniform(rt, 0, len(w.entries)-1, label+"entry")
+		var cum uint64
+		for _, e := range w.entries[:i] {
+			cum += e.Weight
+		}
+		if gen.Chance(rt, 50, label+"last") {
+			return cum + w.entries[i].Weight
+		}
+		return cum + 1
+	}
+	return uint64(gen.Uniform(rt, 1, int(w.total), label))
 }
 
 func (w *world) honest(t fataler, block uint64) []byte {
@@ -414,7 +435,7 @@ func TestProofsSoundAndComplete(t *testing.T) {
 		if w.total == 0 {
 			rt.Skip("empty trie")
 		}
-		block := uint64(gen.Uniform(rt, 1, int(w.total), "block"))
+		block := w.drawBlock(rt, "block")
 		honest := w.honest(rt, block)
 		if r := judge(rt, w, block, honest, honest, "honest proof"); r != "verifies-to-truth" {
 			rt.Fatalf("honest proof for block %d of %d: %s", block, w.total, r)
